@@ -173,7 +173,17 @@ func syncRaceRound(en *Env, i int, stats map[string]int) {
 		for j := 0; j < nb; j++ {
 			bcs = append(bcs, bc{r.Intn(6) != 0, 1 + r.Intn(4), vlen()})
 		}
+		bMerges := s%3 == 2 && r.Intn(2) == 0
 		go func() {
+			if bMerges {
+				// B also asks for a Merge while A's batch is being committed: it has to wait for the batch like any writer
+				// (a merge that scanned the batch's records before they are in the index would judge them dead)
+				emit(h.Ev{"ev": "call", "c": 2, "op": "Merge"})
+				clientOf.Store(goid(), 2)
+				name := guardName(func() error { return db.Merge() })
+				clientOf.Delete(goid())
+				emit(h.Ev{"ev": "ret", "c": 2, "op": "Merge", "err": name})
+			}
 			for _, x := range bcs {
 				call(2, x.put, x.k, x.n)
 			}
